@@ -635,9 +635,11 @@ class C12(common.Prop):
         ncomp = rng.choice([1, 2, 2, 3])
         fmt = "XYZW"[:D] + "C"
         comps = []
+        # names in any Unicode text (1-4 byte UTF-8 code points, a combining mark): what is written must read back
+        sfx = rng.choice(["", "", "", "\u00e9", "\u624b", "\U0001F600", "o\u0308\u0301", "\u00df\u00e9\u624b"])
         for i in range(ncomp):
             npts = rng.choice([1, 2, 2, 3, 3]) if stream != "odd" else rng.choice([0, 1, 2, 3])
-            comps.append({"name": "c%d" % i, "points": ["c%dp%d" % (i, j) for j in range(npts)], "format": fmt})
+            comps.append({"name": "c%d%s" % (i, sfx), "points": ["c%dp%d%s" % (i, j, sfx) for j in range(npts)], "format": fmt})
         if stream == "mixed" and ncomp >= 2:
             comps[rng.randrange(1, ncomp)]["format"] = "XYZW"[:max(D - 1, 1)] + "C" if D > 1 else "XYC"
             comps[0]["format"] = fmt
